@@ -20,8 +20,9 @@ import subprocess
 import sys
 
 VERIF = os.path.dirname(os.path.dirname(os.path.abspath(__file__)))
-WT = "/tmp/verif-seedwt"
-NC = "/tmp/verif-seednc"
+WT = os.environ.get("VERIF_SEED_WT", "/tmp/verif-seedwt")
+NC = WT + "-nc"
+KS = set(filter(None, os.environ.get("VERIF_SEED_ONLY", "").split(",")))      # e.g. m7,m8
 DESELECT = ["dataiter/test/test_data_frame.py::TestDataFrame::test_read_json_columns",
             "dataiter/test/test_data_frame.py::TestDataFrame::test_read_json_dtypes",
             "dataiter/test/test_data_frame.py::TestDataFrame::test_read_json_path",
@@ -52,6 +53,8 @@ def main():
             for k in sorted(os.listdir(os.path.join(src, prop + ".out"))):
                 d = os.path.join(src, prop + ".out", k)
                 if not (os.path.isdir(d) and k.startswith("m") and os.path.exists(os.path.join(d, "patch.diff"))):
+                    continue
+                if KS and k not in KS:
                     continue
                 patch = os.path.join(d, "patch.rebased.diff") if os.path.exists(os.path.join(d, "patch.rebased.diff")) else os.path.join(d, "patch.diff")
                 sid = f"{prop}-{k}"
